@@ -18,6 +18,8 @@ type C02Case struct {
 	Profile string `json:"profile"`
 	Data    string `json:"data"`
 	Text    string `json:"pathText"`
+	// further prefixes the observing profile declares (alias -> namespace)
+	Prefixes map[string]string `json:"prefixes,omitempty"`
 }
 
 func genC02(g *G, n int, out io.Writer) {
@@ -36,8 +38,19 @@ func genC02(g *G, n int, out io.Writer) {
 				moveToCore(gr, &p, g.pick(propPool))
 			}
 		}
+		prefixes := map[string]string{}
+		if i%4 == 3 {
+			// a predicate in a namespace of another shape, under an alias the profile declares (for `apiExt` only when the
+			// case has no annotation steps, which use the built-in meaning of that alias)
+			k := g.n(len(altNamespaces))
+			if altNamespaces[k].alias == "apiExt" && customSteps {
+				k = 0
+			}
+			a, ns := moveToNs(gr, &p, g.pick(propPool), k)
+			prefixes[a] = ns
+		}
 		fetch := g.coin(0.3)
-		c := C02Case{Op: "c02", Id: i, Path: p, Graph: gr, Focus: gr[f].Id, Fetch: fetch, Text: p.Render()}
+		c := C02Case{Op: "c02", Id: i, Path: p, Graph: gr, Focus: gr[f].Id, Fetch: fetch, Text: p.Render(), Prefixes: prefixes}
 		fillC02(&c)
 		enc.Encode(c)
 	}
@@ -50,6 +63,7 @@ func fillC02(c *C02Case) {
 	c.Text = p.Render()
 	var prof ProfileSpec
 	prof.Name = fmt.Sprintf("c02_%d", c.Id)
+	prof.Prefixes = c.Prefixes
 	if c.Fetch {
 		// nested: inner constraint that always fails -> every reached node is a failed node
 		prof.Atoms = []Atom{{Kind: "minCount", Path: PP("zz", false), Arg: i64p(1)}}
@@ -60,11 +74,15 @@ func fillC02(c *C02Case) {
 			{Kind: "in", Path: p, Vals: []string{"zzz_none"}},
 			{Kind: "maxCount", Path: p, Arg: i64p(0)},
 			{Kind: "uniqueValues", Path: p, UArg: bp(true)},
+			{Kind: "exactCount", Path: p, Arg: i64p(0)},
+			{Kind: "minCount", Path: p, Arg: i64p(1000)},
 		}
 		prof.Validations = []Validation{
 			{Name: "values", Class: NS + "F", Rule: Rule{Atom: ip(0)}},
 			{Name: "count", Class: NS + "F", Rule: Rule{Atom: ip(1)}},
 			{Name: "unique", Class: NS + "F", Rule: Rule{Atom: ip(2)}},
+			{Name: "exact", Class: NS + "F", Rule: Rule{Atom: ip(3)}},
+			{Name: "min", Class: NS + "F", Rule: Rule{Atom: ip(4)}},
 		}
 	}
 	c.Profile = prof.Render()
